@@ -33,7 +33,9 @@ class Obligation:
         self.kind = kind
 
 
-REPO_PREFIX = '/repo/'
+import os as _os
+
+REPO_PREFIX = _os.path.realpath(_os.environ.get('VERIF_REPO', '/repo')) + '/'
 _TOOL_ID = 3
 
 
